@@ -10,6 +10,7 @@ package group
 // holds for every outcome vector and every completion order.
 
 //@ property C17
+//@ callback Member: modifies nothing
 //@ spec func resp(members []Member, k int) memberResponse
 //@ spec func nerr(members []Member, k int) mathint
 //@ axiom respIndex: forall m []Member, k int :: 0 <= k && k < len(m) ==> 0 <= resp(m, k).i && resp(m, k).i < len(m)
@@ -20,6 +21,8 @@ package group
 //@
 //@ func executeEach(ctx, members) (ch)
 //@   ensures [fresh] fresh(ch) && ch != nil && chanRecvd(ch) == 0
+//@   ensures [buffered] chanCap(ch) >= len(members)
+//@   replay [buffered] GroupLeak()
 //@   trusts chanTotal(ch) == len(members)
 //@   trusts forall k int :: 0 <= k && k < len(members) ==> chanSeq(ch, k) == resp(members, k)
 //@   modifies nothing
@@ -40,3 +43,77 @@ package group
 //@     invariant forall k int :: 0 <= k && k < chanRecvd(lastcall(executeEach)) && resp(members, k).err != nil && noErrBefore(members, k) ==> firstError == resp(members, k).err
 //@     invariant len(results) == len(members) && fresh(results)
 //@     invariant errCount > allowedErrors && errCount > 0 ==> cancelled(cancelFunc)
+//@   ensures [bound] 0 <= nerr(members, len(members)) && nerr(members, len(members)) <= len(members)
+//@
+//@ func ExecuteAll(ctx, members) (results, err)
+//@   ensures [len] len(results) == len(members)
+//@   ensures [results] forall k int :: 0 <= k && k < len(members) ==> results[resp(members, k).i] == resp(members, k).msg
+//@   ensures [fails-iff-some-fails] (err != nil) == (nerr(members, len(members)) > 0)
+//@   ensures [first-error] forall k int :: 0 <= k && k < len(members) && resp(members, k).err != nil && noErrBefore(members, k) && err != nil ==> err == resp(members, k).err
+//@   modifies nothing
+//@
+//@ func ExecuteMost(ctx, members) (results, err)
+//@   ensures [len] len(results) == len(members)
+//@   ensures [results] forall k int :: 0 <= k && k < len(members) ==> results[resp(members, k).i] == resp(members, k).msg
+//@   ensures [fails-iff-more-than-half-fail] (err != nil) == (2 * nerr(members, len(members)) > len(members))
+//@   ensures [first-error] forall k int :: 0 <= k && k < len(members) && resp(members, k).err != nil && noErrBefore(members, k) && err != nil ==> err == resp(members, k).err
+//@   modifies nothing
+//@
+//@ func ExecuteAny(ctx, members) (results, err)
+//@   ensures [len] len(results) == len(members)
+//@   ensures [results] forall k int :: 0 <= k && k < len(members) ==> results[resp(members, k).i] == resp(members, k).msg
+//@   ensures [fails-iff-all-fail] (err != nil) == (len(members) > 0 && nerr(members, len(members)) == len(members))
+//@   ensures [first-error] forall k int :: 0 <= k && k < len(members) && resp(members, k).err != nil && noErrBefore(members, k) && err != nil ==> err == resp(members, k).err
+//@   modifies nothing
+//@
+//@ // ExecuteOne calls its members itself, one at a time.  The ghost call log (cbfn/cbres) records the n-th callback
+//@ // invocation and what it returned, so "tries members in order until one succeeds" is a statement about the log.
+//@ func ExecuteOne(ctx, members) (res, idx, err)
+//@   requires forall j int :: 0 <= j && j < len(members) ==> members[j] != nil
+//@   letold c0 := cbcalls()
+//@   ensures [in-order] forall j int :: 0 <= j && j < cbcalls() - c0 ==> cbfn(c0 + j) == members[j]
+//@   ensures [calls] 0 <= cbcalls() - c0 && cbcalls() - c0 <= len(members)
+//@   ensures [success] err == nil && len(members) > 0 ==> idx == cbcalls() - c0 - 1 && cbresIface(c0 + idx, 1) == nil && res == cbresIface(c0 + idx, 0) &&
+//@   |   (forall j int :: 0 <= j && j < idx ==> cbresIface(c0 + j, 1) != nil)
+//@   ensures [all-fail] err != nil ==> cbcalls() - c0 == len(members) && idx == 0 && res == nil && err == cbresIface(c0, 1) &&
+//@   |   (forall j int :: 0 <= j && j < len(members) ==> cbresIface(c0 + j, 1) != nil)
+//@   ensures [empty] len(members) == 0 ==> res == nil && idx == 0 && err == nil && cbcalls() == c0
+//@   ensures [index] 0 <= idx && (idx < len(members) || len(members) == 0)
+//@   modifies nothing
+//@   loop 0 (k):
+//@     invariant 0 <= k && k <= len(members) && cbcalls() == c0 + k
+//@     invariant forall j int :: 0 <= j && j < k ==> cbfn(c0 + j) == members[j] && cbresIface(c0 + j, 1) != nil
+//@     invariant k > 0 ==> firstErr == cbresIface(c0, 1)
+//@     invariant k == 0 ==> firstErr == nil
+//@     decreases len(members) - k
+//@
+//@ // every sender can deliver its response even if the receiver stops early (no goroutine is left blocked)
+//@ pure func noLeak(ch) = chanTotal(ch) - chanRecvd(ch) <= chanCap(ch)
+//@
+//@ func ExecuteFast(ctx, members) (res, idx, err)
+//@   ensures [first-success] forall k int :: 0 <= k && k < len(members) && resp(members, k).err == nil && (forall l int :: 0 <= l && l < k ==> resp(members, l).err != nil) ==>
+//@   |   err == nil && res == resp(members, k).msg && idx == resp(members, k).i
+//@   ensures [all-fail] len(members) > 0 && (forall k int :: 0 <= k && k < len(members) ==> resp(members, k).err != nil) ==> err == resp(members, 0).err && idx == resp(members, 0).i && res == nil
+//@   ensures [index] 0 <= idx && (idx < len(members) || len(members) == 0)
+//@   ensures [cancelled] cancelled(cancelFunc)
+//@   ensures [noleak] noLeak(lastcall(executeEach))
+//@   modifies nothing
+//@   loop 0:
+//@     invariant 0 <= chanRecvd(lastcall(executeEach)) && chanRecvd(lastcall(executeEach)) <= len(members) && chanTotal(lastcall(executeEach)) == len(members)
+//@     invariant chanCap(lastcall(executeEach)) >= len(members)
+//@     invariant forall l int :: 0 <= l && l < chanRecvd(lastcall(executeEach)) ==> resp(members, l).err != nil
+//@     invariant (firstErrResponse == nil) == (chanRecvd(lastcall(executeEach)) == 0)
+//@     invariant firstErrResponse != nil ==> firstErrResponse.err == resp(members, 0).err && firstErrResponse.i == resp(members, 0).i
+//@
+//@ func ExecuteRace(ctx, members) (res, idx, err)
+//@   ensures [first-response] len(members) > 0 ==> res == resp(members, 0).msg && idx == resp(members, 0).i && err == resp(members, 0).err
+//@   ensures [index] 0 <= idx && (idx < len(members) || len(members) == 0)
+//@   ensures [cancelled] cancelled(cancelFunc)
+//@   ensures [noleak] noLeak(lastcall(executeEach))
+//@   modifies nothing
+//@
+//@ func Execute(ctx, strategy, members) (results, err)
+//@   requires forall j int :: 0 <= j && j < len(members) ==> members[j] != nil
+//@   ensures [len] len(results) == len(members)
+//@   modifies nothing
+//@   replay GroupExecuteEmpty()
